@@ -158,10 +158,11 @@ def simulate(ctx, num, depth):
 
 
 def execute(ctx, binary, scheds, tag):
-    """scheds: list of (b, snap, steps)."""
+    """scheds: list of (b, snap, steps); snap = 0 no snapshot, 1 snapshot, n >= 40: snapshot file pre-filled with comment
+    lines up to n bytes below the compaction limit (the schedule's recorded clocks then cross it)."""
     sp = os.path.join(ctx.scratch, "sched-%s.ndjson" % tag)
     tp = os.path.join(ctx.scratch, "trace-%s.ndjson" % tag)
-    vlib.write_schedules(sp, [[{"a": "cfg", "b": b, "snap": sn}] + s for (b, sn, s) in scheds])
+    vlib.write_schedules(sp, [[{"a": "cfg", "b": b, "snap": min(sn, 1), "fill": sn if sn > 1 else 0}] + s for (b, sn, s) in scheds])
     rc, out = vlib.run_driver(ctx, binary, ["-mode", "seq", "-in", sp, "-out", tp, "-nc", str(NC),
                                             "-max", str(MAX), "-dir", ctx.sub("snap")], timeout=1800)
     if rc != 0:
@@ -219,7 +220,15 @@ def directed(mc_ce):
         [ev(2, 1), jn(3, [{"lt": 2, "ks": [1, 2]}], 1), ev(2, 2), jn(4, [{"lt": 3, "ks": [1]}], 0), mg(5, [{"lt": 4, "ks": [2]}], 1, 0), ev(4, 1)],
         [ev(3, 1), rs(0), jn(2, [{"lt": 1, "ks": [1]}], 1), ev(3, 1), ev(2, 2), mg(5, [], 1, 0), ev(4, 2)],
     ]
-    return [(b, 1, s) for s in ([x for x in mc_ce if x] + hand) for b in BS]
+    out = [(b, 1, s) for s in ([x for x in mc_ce if x] + hand) for b in BS]
+    # snapshot compaction: the file is pre-filled to just below the limit, j increasing times are recorded (one of the
+    # lines crosses the limit and triggers the compaction), graceful restart, the newest one arrives again
+    ts = [1, 2, 3, 4, 5, 19, 20, 21, 22]
+    for fill in (100, 160):
+        for j in range(1, len(ts) + 1):
+            out.append((4, fill, [qry(t, 1) for t in ts[:j]] + [rs(0), qry(ts[j - 1], 1)] + [qry(t, 1) for t in ts[:j - 1][-1:]]))
+            out.append((2, fill, [ev(t, 1) for t in ts[:j]] + [rs(0), ev(ts[j - 1], 1)] + [ev(t, 1) for t in ts[:j - 1][-1:]]))
+    return out
 
 
 def alphabet(snap, nlocal, reduced=False):
@@ -238,7 +247,7 @@ def alphabet(snap, nlocal, reduced=False):
             out.append({"a": "merge", "elt": 1, "qlt": 0, "evs": [{"lt": lt, "ks": [1]}], "join": j, "ign": g})
     for g in ([1] if reduced else [0, 1]):
         out.append({"a": "join", "elt": 1, "qlt": 1, "evs": [], "join": 1, "ign": g})
-    if snap == 1:
+    if snap >= 1:
         out += [{"a": "restart", "crash": 0}] + ([] if reduced else [{"a": "restart", "crash": 1}])
     if nlocal < LOCALMAX:
         out += [{"a": "uev", "k": 1}, {"a": "lq"}]
